@@ -26,6 +26,11 @@ func (e *Engine) Name() string { return "repsim" }
 
 func init() {
 	sim.Register(&Engine{}, "C01", "C02", "C03", "C04", "C05", "C09", "C10", "C11", "C12", "C14", "C15")
+	// C02: one run in four is a pull or merge executed once per storage call it issues, that call failing (crash.go)
+	sim.Engines["crashsim"] = &CrashEngine{}
+	sim.PropEngines["C02"] = []string{"repsim", "repsim", "repsim", "crashsim"}
+	// C04 likewise: what was committed locally still reads back after a pull that met an error
+	sim.PropEngines["C04"] = []string{"repsim", "repsim", "repsim", "crashsim"}
 }
 
 const baseWall = 1_700_000_000
